@@ -4,54 +4,60 @@ Part 1: the counters (src/long_read_counter.py ProfileFeatureCounter / ExonCount
 tables and their row identity.  Property theorems only; helper lemmas are in IsoVerif/Lemmas/C13Counts.lean.
 
 A *history* is the list of read events (gene profile, property map of the read's GeneInfo, read group) fed to a
-counter in order; `countAll key ignore dflt evs` is the counter state after the whole history (`none` = the code
-raised IndexError), `dumpRows` the table it writes.  `key = coordKey` is the code after fix a8ffd5c, `idKey` the
-code before it.
+counter in order; `countAll key upd ignore dflt evs` is the counter state after the whole history (`none` = the code
+raised IndexError), `dumpRows` the table it writes.  `key = coordKey`, `upd = FeatureInfo.merge` is the code after the
+candidate repair of finding G1 (rows keyed by (chr, start, end), descriptions merged); `strandKey`, `keepFirst` the code
+after fix a8ffd5c (`…Orig`); `idKey`, `keepFirst` the code before it.  `hupd` (re-describing a row does not change its
+key) holds for all three (`hupd_merge`, `hupd_keepFirst`).
 -/
 import IsoVerif.Model.FeatureCounts
 import IsoVerif.Lemmas.C13Counts
+import IsoVerif.Lemmas.C13Merge
 
 namespace IsoVerif.Props.C13
 open IsoVerif.Gen IsoVerif.Model IsoVerif.Model.C13 IsoVerif.Lemmas.C13
 
-variable {κ : Type} [BEq κ] [LawfulBEq κ]
+variable {κ : Type} [BEq κ] [LawfulBEq κ] {upd : FeatureInfo → FeatureInfo → FeatureInfo}
+
+theorem hupd_merge : ∀ a b : FeatureInfo, coordKey (a.merge b) = coordKey a := merge_coordKey
+theorem hupd_keepFirst (key : FeatureInfo → κ) : ∀ a b : FeatureInfo, key (keepFirst a b) = key a := fun _ _ => rfl
 
 /-! ### include / exclude counts are folds over the processed reads -/
 
 /-- the include count of feature key `k` in group `g` is the number of (processed read, profile position) pairs
     filed under `g` whose profile value is +1 at a feature with key `k` (`hits` = number of such positions of one read) -/
-theorem include_counts (key : FeatureInfo → κ) (ignore : Bool) (dflt : String) (evs : List ReadEv) (st : PCounter κ)
-    (h : countAll key ignore dflt evs = some st) (k : κ) (g : String) :
+theorem include_counts (key : FeatureInfo → κ) (hupd : ∀ a b, key (upd a b) = key a) (ignore : Bool) (dflt : String) (evs : List ReadEv) (st : PCounter κ)
+    (h : countAll key upd ignore dflt evs = some st) (k : κ) (g : String) :
     st.inclOf k g =
       ((evs.filter (fun ev => groupOf ignore dflt ev == g)).map (fun ev => hits key 1 k ev.profile ev.pmap)).sum := by
-  have := (run_spec key ignore dflt evs _ st (GInv_init ignore dflt) (NInv_init key ignore dflt) h).2.2.1 k g
+  have := (run_spec key hupd ignore dflt evs _ st (GInv_init ignore dflt) (NInv_init key ignore dflt) h).2.2.1 k g
   rw [this]
   cases ignore <;> simp [PCounter.inclOf, PCounter.init, getCount] <;> split <;> simp
 
-theorem exclude_counts (key : FeatureInfo → κ) (ignore : Bool) (dflt : String) (evs : List ReadEv) (st : PCounter κ)
-    (h : countAll key ignore dflt evs = some st) (k : κ) (g : String) :
+theorem exclude_counts (key : FeatureInfo → κ) (hupd : ∀ a b, key (upd a b) = key a) (ignore : Bool) (dflt : String) (evs : List ReadEv) (st : PCounter κ)
+    (h : countAll key upd ignore dflt evs = some st) (k : κ) (g : String) :
     st.exclOf k g =
       ((evs.filter (fun ev => groupOf ignore dflt ev == g)).map (fun ev => hits key (-1) k ev.profile ev.pmap)).sum := by
-  have := (run_spec key ignore dflt evs _ st (GInv_init ignore dflt) (NInv_init key ignore dflt) h).2.2.2.1 k g
+  have := (run_spec key hupd ignore dflt evs _ st (GInv_init ignore dflt) (NInv_init key ignore dflt) h).2.2.2.1 k g
   rw [this]
   cases ignore <;> simp [PCounter.exclOf, PCounter.init, getCount] <;> split <;> simp
 
 /-- when the features of every property map have distinct keys (true of `set_feature_properties` under `coordKey`,
     see `feature_keys_nodup`), a read contributes at most once: the include count is the *number of processed reads*
     of the group whose profile is +1 at the feature -/
-theorem include_counts_reads (key : FeatureInfo → κ) (ignore : Bool) (dflt : String) (evs : List ReadEv) (st : PCounter κ)
-    (h : countAll key ignore dflt evs = some st) (hnd : ∀ ev ∈ evs, (ev.pmap.map key).Nodup) (k : κ) (g : String) :
+theorem include_counts_reads (key : FeatureInfo → κ) (hupd : ∀ a b, key (upd a b) = key a) (ignore : Bool) (dflt : String) (evs : List ReadEv) (st : PCounter κ)
+    (h : countAll key upd ignore dflt evs = some st) (hnd : ∀ ev ∈ evs, (ev.pmap.map key).Nodup) (k : κ) (g : String) :
     st.inclOf k g = (evs.filter (fun ev => groupOf ignore dflt ev == g)).countP (marks key 1 k) := by
-  rw [include_counts key ignore dflt evs st h k g, ← sum_ite_eq_countP]
+  rw [include_counts key hupd ignore dflt evs st h k g, ← sum_ite_eq_countP]
   congr 1
   apply List.map_congr_left
   intro ev hev
   exact hits_eq_marks key 1 k ev (hnd ev (List.mem_filter.mp hev).1)
 
-theorem exclude_counts_reads (key : FeatureInfo → κ) (ignore : Bool) (dflt : String) (evs : List ReadEv) (st : PCounter κ)
-    (h : countAll key ignore dflt evs = some st) (hnd : ∀ ev ∈ evs, (ev.pmap.map key).Nodup) (k : κ) (g : String) :
+theorem exclude_counts_reads (key : FeatureInfo → κ) (hupd : ∀ a b, key (upd a b) = key a) (ignore : Bool) (dflt : String) (evs : List ReadEv) (st : PCounter κ)
+    (h : countAll key upd ignore dflt evs = some st) (hnd : ∀ ev ∈ evs, (ev.pmap.map key).Nodup) (k : κ) (g : String) :
     st.exclOf k g = (evs.filter (fun ev => groupOf ignore dflt ev == g)).countP (marks key (-1) k) := by
-  rw [exclude_counts key ignore dflt evs st h k g, ← sum_ite_eq_countP]
+  rw [exclude_counts key hupd ignore dflt evs st h k g, ← sum_ite_eq_countP]
   congr 1
   apply List.map_congr_left
   intro ev hev
@@ -65,18 +71,18 @@ def exHistory : List ReadEv :=
    { profile := [1, 1], pmap := [exFi 3 10 20, exFi 4 30 40], group := "B" },
    { profile := [0, -1], pmap := [exFi 1 10 20, exFi 2 30 40], group := "A" }]
 
-example : ∃ st, countAll coordKey true "NA" exHistory = some st ∧
-    st.inclOf ("chr1", 10, 20, "+") "NA" = 2 ∧ st.exclOf ("chr1", 30, 40, "+") "NA" = 2 ∧
+example : ∃ st, countAll coordKey FeatureInfo.merge true "NA" exHistory = some st ∧
+    st.inclOf ("chr1", 10, 20) "NA" = 2 ∧ st.exclOf ("chr1", 30, 40) "NA" = 2 ∧
     (∀ ev ∈ exHistory, (ev.pmap.map coordKey).Nodup) := by
   refine ⟨_, rfl, by decide, by decide, by decide⟩
 
 /-! ### the dumped table -/
 
 /-- every dumped row carries the counts of its (feature key, group) and at least one of them is positive -/
-theorem dump_row_counts (key : FeatureInfo → κ) (ignore : Bool) (dflt : String) (evs : List ReadEv) (st : PCounter κ)
-    (h : countAll key ignore dflt evs = some st) (r : CountRow) (hr : r ∈ dumpRows st) :
+theorem dump_row_counts (key : FeatureInfo → κ) (hupd : ∀ a b, key (upd a b) = key a) (ignore : Bool) (dflt : String) (evs : List ReadEv) (st : PCounter κ)
+    (h : countAll key upd ignore dflt evs = some st) (r : CountRow) (hr : r ∈ dumpRows st) :
     r.incl = st.inclOf (key r.fi) r.group ∧ r.excl = st.exclOf (key r.fi) r.group ∧ (0 < r.incl ∨ 0 < r.excl) := by
-  obtain ⟨_, hN, _⟩ := run_spec key ignore dflt evs _ st (GInv_init ignore dflt) (NInv_init key ignore dflt) h
+  obtain ⟨_, hN, _⟩ := run_spec key hupd ignore dflt evs _ st (GInv_init ignore dflt) (NInv_init key ignore dflt) h
   obtain ⟨k, hk, gid, hgid, hi, he, hpos⟩ := (mem_dumpRows st r).mp hr
   have : key r.fi = k := hN.names_key _ hk
   subst this
@@ -84,10 +90,10 @@ theorem dump_row_counts (key : FeatureInfo → κ) (ignore : Bool) (dflt : Strin
   rw [← hi, ← he]; exact hpos
 
 /-- every (feature key, group) with a positive count has a row -/
-theorem dump_complete (key : FeatureInfo → κ) (ignore : Bool) (dflt : String) (evs : List ReadEv) (st : PCounter κ)
-    (h : countAll key ignore dflt evs = some st) (k : κ) (g : String) (hpos : 0 < st.inclOf k g ∨ 0 < st.exclOf k g) :
+theorem dump_complete (key : FeatureInfo → κ) (hupd : ∀ a b, key (upd a b) = key a) (ignore : Bool) (dflt : String) (evs : List ReadEv) (st : PCounter κ)
+    (h : countAll key upd ignore dflt evs = some st) (k : κ) (g : String) (hpos : 0 < st.inclOf k g ∨ 0 < st.exclOf k g) :
     ∃ r ∈ dumpRows st, key r.fi = k ∧ r.group = g ∧ r.incl = st.inclOf k g ∧ r.excl = st.exclOf k g := by
-  obtain ⟨_, hN, _⟩ := run_spec key ignore dflt evs _ st (GInv_init ignore dflt) (NInv_init key ignore dflt) h
+  obtain ⟨_, hN, _⟩ := run_spec key hupd ignore dflt evs _ st (GInv_init ignore dflt) (NInv_init key ignore dflt) h
   unfold PCounter.inclOf PCounter.exclOf at hpos ⊢
   cases hl : st.groupIds.lookup g with
   | none => simp [hl] at hpos
@@ -100,48 +106,76 @@ theorem dump_complete (key : FeatureInfo → κ) (ignore : Bool) (dflt : String)
     · exact (mem_dumpRows st _).mpr ⟨k', hp, gid, hl, rfl, rfl, hpos⟩
     · exact hN.names_key _ hp
 
-/-- ONE ROW PER FEATURE (full strength, code after fix a8ffd5c): for every history, no two rows of the dumped table
-    have the same chromosome, start, end, strand and group -/
+/-- ONE ROW PER FEATURE (full strength, code after the candidate repair of G1): for every history of loads - the same
+    annotated feature described by gene infos built from any gene subsets, in any order, under any strand strings -
+    no two rows of the dumped table have the same chromosome, start, end and group -/
 theorem one_row_per_feature (ignore : Bool) (dflt : String) (evs : List ReadEv) (st : PCounter CoordKey)
-    (h : countAll coordKey ignore dflt evs = some st) :
-    ((dumpRows st).map (fun r => ((r.fi.chr, r.fi.start, r.fi.stop, r.fi.strand), r.group))).Nodup := by
-  obtain ⟨hG, hN, _⟩ := run_spec coordKey ignore dflt evs _ st (GInv_init ignore dflt) (NInv_init coordKey ignore dflt) h
+    (h : countAll coordKey FeatureInfo.merge ignore dflt evs = some st) :
+    ((dumpRows st).map (fun r => ((r.fi.chr, r.fi.start, r.fi.stop), r.group))).Nodup := by
+  obtain ⟨hG, hN, _⟩ := run_spec coordKey hupd_merge ignore dflt evs _ st (GInv_init ignore dflt) (NInv_init coordKey ignore dflt) h
   exact dumpRows_nodup coordKey st hG hN
 
+/-- the code before the repair (rows keyed by (chr, start, end, strand string), first description kept): rows are
+    unique only up to the strand string -/
+theorem one_row_per_feature_strand_partial (ignore : Bool) (dflt : String) (evs : List ReadEv) (st : PCounter StrandKey)
+    (h : countAll strandKey keepFirst ignore dflt evs = some st) :
+    ((dumpRows st).map (fun r => ((r.fi.chr, r.fi.start, r.fi.stop, r.fi.strand), r.group))).Nodup := by
+  obtain ⟨hG, hN, _⟩ := run_spec strandKey (hupd_keepFirst strandKey) ignore dflt evs _ st (GInv_init ignore dflt)
+    (NInv_init strandKey ignore dflt) h
+  exact dumpRows_nodup strandKey st hG hN
+
 /-- the same statement for any row key: rows never share (key, group) -/
-theorem one_row_per_key (key : FeatureInfo → κ) (ignore : Bool) (dflt : String) (evs : List ReadEv) (st : PCounter κ)
-    (h : countAll key ignore dflt evs = some st) :
+theorem one_row_per_key (key : FeatureInfo → κ) (hupd : ∀ a b, key (upd a b) = key a) (ignore : Bool) (dflt : String) (evs : List ReadEv) (st : PCounter κ)
+    (h : countAll key upd ignore dflt evs = some st) :
     ((dumpRows st).map (fun r => (key r.fi, r.group))).Nodup := by
-  obtain ⟨hG, hN, _⟩ := run_spec key ignore dflt evs _ st (GInv_init ignore dflt) (NInv_init key ignore dflt) h
+  obtain ⟨hG, hN, _⟩ := run_spec key hupd ignore dflt evs _ st (GInv_init ignore dflt) (NInv_init key ignore dflt) h
   exact dumpRows_nodup key st hG hN
 
 /-- the defect that was fixed (rows keyed by the running `FeatureInfo.id`): the gene is loaded twice, the exon
     chr1:10-20 gets ids 1 and 3, and the table has two rows for it with the counts split 1 + 1 -/
 theorem feature_row_split_witness :
-    (countAll idKey true "NA" exHistory).map (fun st => (dumpRows st).map (fun r => (coordKey r.fi, r.incl, r.excl))) =
-      some [(("chr1", 10, 20, "+"), 1, 0), (("chr1", 30, 40, "+"), 0, 2), (("chr1", 10, 20, "+"), 1, 0), (("chr1", 30, 40, "+"), 1, 0)] ∧
-    (countAll coordKey true "NA" exHistory).map (fun st => (dumpRows st).map (fun r => (coordKey r.fi, r.incl, r.excl))) =
-      some [(("chr1", 10, 20, "+"), 2, 0), (("chr1", 30, 40, "+"), 1, 2)] := by
+    (countAll idKey keepFirst true "NA" exHistory).map (fun st => (dumpRows st).map (fun r => (coordKey r.fi, r.incl, r.excl))) =
+      some [(("chr1", 10, 20), 1, 0), (("chr1", 30, 40), 0, 2), (("chr1", 10, 20), 1, 0), (("chr1", 30, 40), 1, 0)] ∧
+    (countAll coordKey FeatureInfo.merge true "NA" exHistory).map (fun st => (dumpRows st).map (fun r => (coordKey r.fi, r.incl, r.excl))) =
+      some [(("chr1", 10, 20), 2, 0), (("chr1", 30, 40), 1, 2)] := by
   constructor <;> decide
 
-/-- row identity: the feature description printed in a row is that of a `FeatureInfo` of the property map of a
-    processed read, at a position where that read's profile is +1 or −1 -/
-theorem row_from_property_map (key : FeatureInfo → κ) (ignore : Bool) (dflt : String) (evs : List ReadEv) (st : PCounter κ)
-    (h : countAll key ignore dflt evs = some st) (r : CountRow) (hr : r ∈ dumpRows st) :
-    ∃ ev ∈ evs, ∃ x ∈ ev.profile.zip ev.pmap, (x.1 = 1 ∨ x.1 = -1) ∧ x.2 = r.fi := by
-  obtain ⟨_, _, _, _, _, _, hprov⟩ := run_spec key ignore dflt evs _ st (GInv_init ignore dflt) (NInv_init key ignore dflt) h
+/-- row identity: the key of a row is the key of descriptions counted under it (FeatureInfos of the property maps of
+    processed reads at positions where the profile is +1 or −1: `mem_touched`), and the description printed is the FIRST of
+    them re-described (`upd`) with every later one, in the order of the history -/
+theorem row_description (key : FeatureInfo → κ) (hupd : ∀ a b, key (upd a b) = key a) (ignore : Bool) (dflt : String)
+    (evs : List ReadEv) (st : PCounter κ)
+    (h : countAll key upd ignore dflt evs = some st) (r : CountRow) (hr : r ∈ dumpRows st) :
+    ∃ f rest, (touched evs).filter (fun x => key x == key r.fi) = f :: rest ∧ r.fi = rest.foldl upd f := by
+  obtain ⟨_, hN, _, _, _, hnames⟩ := run_spec key hupd ignore dflt evs _ st (GInv_init ignore dflt) (NInv_init key ignore dflt) h
   obtain ⟨k, hk, _⟩ := (mem_dumpRows st r).mp hr
-  rcases hprov _ hk with h0 | ⟨ev, hev, x, hx, hx1, hx2⟩
-  · simp [PCounter.init] at h0
-  · exact ⟨ev, hev, x, hx, hx1, by simpa using (congrArg Prod.snd hx2).symm⟩
+  have hkey : key r.fi = k := hN.names_key _ hk
+  have hl := lookup_of_mem_nodup st.names k r.fi hk hN.names_nodup
+  have h0 : (PCounter.init ignore dflt : PCounter κ).names = [] := by cases ignore <;> rfl
+  rw [hnames, h0, lookup_nameFold, ← hkey] at hl
+  simp only [List.lookup] at hl
+  split at hl
+  · simp at hl
+  · rename_i f rest hf
+    exact ⟨f, rest, hf, by simpa using hl.symm⟩
+
+theorem row_from_property_map (key : FeatureInfo → κ) (hupd : ∀ a b, key (upd a b) = key a) (ignore : Bool) (dflt : String)
+    (evs : List ReadEv) (st : PCounter κ)
+    (h : countAll key upd ignore dflt evs = some st) (r : CountRow) (hr : r ∈ dumpRows st) :
+    ∃ ev ∈ evs, ∃ x ∈ ev.profile.zip ev.pmap, (x.1 = 1 ∨ x.1 = -1) ∧ key x.2 = key r.fi := by
+  obtain ⟨f, rest, hf, _⟩ := row_description key hupd ignore dflt evs st h r hr
+  have hm : f ∈ (touched evs).filter (fun x => key x == key r.fi) := by rw [hf]; exact List.mem_cons_self ..
+  obtain ⟨hm1, hm2⟩ := List.mem_filter.mp hm
+  obtain ⟨ev, hev, p, hp, hv, hx⟩ := (mem_touched evs f).mp hm1
+  exact ⟨ev, hev, p, hp, hv, by rw [hx]; simpa using hm2⟩
 
 /-! ### grouped variants partition the ungrouped counts -/
 
 /-- the groups a grouped counter has registered are exactly the read groups of the processed reads, without repetition -/
-theorem grouped_groups (key : FeatureInfo → κ) (dflt : String) (evs : List ReadEv) (sg : PCounter κ)
-    (hg : countAll key false dflt evs = some sg) :
+theorem grouped_groups (key : FeatureInfo → κ) (hupd : ∀ a b, key (upd a b) = key a) (dflt : String) (evs : List ReadEv) (sg : PCounter κ)
+    (hg : countAll key upd false dflt evs = some sg) :
     (sg.groupIds.map (·.1)).Nodup ∧ ∀ g, g ∈ sg.groupIds.map (·.1) ↔ ∃ ev ∈ evs, ev.group = g := by
-  obtain ⟨hG, _, _, _, hgr, _⟩ := run_spec key false dflt evs _ sg (GInv_init false dflt) (NInv_init key false dflt) hg
+  obtain ⟨hG, _, _, _, hgr, _⟩ := run_spec key hupd false dflt evs _ sg (GInv_init false dflt) (NInv_init key false dflt) hg
   refine ⟨hG.grp_nodup, ?_⟩
   intro g
   rw [hgr g]
@@ -149,23 +183,23 @@ theorem grouped_groups (key : FeatureInfo → κ) (dflt : String) (evs : List Re
 
 /-- GROUPED PARTITION: for every feature key, the counts of the grouped counter summed over its groups equal the
     counts of the ungrouped counter fed with the same history -/
-theorem grouped_partition (key : FeatureInfo → κ) (dflt : String) (evs : List ReadEv) (su sg : PCounter κ)
-    (hu : countAll key true dflt evs = some su) (hg : countAll key false dflt evs = some sg) (k : κ) :
+theorem grouped_partition (key : FeatureInfo → κ) (hupd : ∀ a b, key (upd a b) = key a) (dflt : String) (evs : List ReadEv) (su sg : PCounter κ)
+    (hu : countAll key upd true dflt evs = some su) (hg : countAll key upd false dflt evs = some sg) (k : κ) :
     su.inclOf k dflt = ((sg.groupIds.map (·.1)).map (fun g => sg.inclOf k g)).sum ∧
     su.exclOf k dflt = ((sg.groupIds.map (·.1)).map (fun g => sg.exclOf k g)).sum := by
-  obtain ⟨hnd, hmem⟩ := grouped_groups key dflt evs sg hg
+  obtain ⟨hnd, hmem⟩ := grouped_groups key hupd dflt evs sg hg
   have hall : ∀ ev ∈ evs, ev.group ∈ sg.groupIds.map (·.1) := fun ev hev => (hmem ev.group).mpr ⟨ev, hev, rfl⟩
   constructor
-  · rw [include_counts key true dflt evs su hu k dflt]
+  · rw [include_counts key hupd true dflt evs su hu k dflt]
     have : ∀ g, sg.inclOf k g = ((evs.filter (fun ev => ev.group == g)).map (fun ev => hits key 1 k ev.profile ev.pmap)).sum := by
-      intro g; rw [include_counts key false dflt evs sg hg k g]; simp [groupOf]
+      intro g; rw [include_counts key hupd false dflt evs sg hg k g]; simp [groupOf]
     simp only [this]
     rw [sum_by_group _ hnd evs (·.group) _ hall]
     have hft : evs.filter (fun _ => true) = evs := List.filter_eq_self.mpr (fun _ _ => rfl)
     simp [groupOf, hft]
-  · rw [exclude_counts key true dflt evs su hu k dflt]
+  · rw [exclude_counts key hupd true dflt evs su hu k dflt]
     have : ∀ g, sg.exclOf k g = ((evs.filter (fun ev => ev.group == g)).map (fun ev => hits key (-1) k ev.profile ev.pmap)).sum := by
-      intro g; rw [exclude_counts key false dflt evs sg hg k g]; simp [groupOf]
+      intro g; rw [exclude_counts key hupd false dflt evs sg hg k g]; simp [groupOf]
     simp only [this]
     rw [sum_by_group _ hnd evs (·.group) _ hall]
     have hft : evs.filter (fun _ => true) = evs := List.filter_eq_self.mpr (fun _ _ => rfl)
@@ -174,15 +208,15 @@ theorem grouped_partition (key : FeatureInfo → κ) (dflt : String) (evs : List
 /-- GROUPED PARTITION at the level of the written tables: for every feature key, the include (exclude) counts of the
     rows of the grouped table with that key sum to the count of the ungrouped counter — which is what the single row
     of the ungrouped table shows (`dump_row_counts`, `dump_complete`, `one_row_per_key`) -/
-theorem grouped_tables_partition (key : FeatureInfo → κ) (dflt : String) (evs : List ReadEv) (su sg : PCounter κ)
-    (hu : countAll key true dflt evs = some su) (hg : countAll key false dflt evs = some sg) (k : κ) :
+theorem grouped_tables_partition (key : FeatureInfo → κ) (hupd : ∀ a b, key (upd a b) = key a) (dflt : String) (evs : List ReadEv) (su sg : PCounter κ)
+    (hu : countAll key upd true dflt evs = some su) (hg : countAll key upd false dflt evs = some sg) (k : κ) :
     (((dumpRows sg).filter (fun r => key r.fi == k)).map (·.incl)).sum = su.inclOf k dflt ∧
     (((dumpRows sg).filter (fun r => key r.fi == k)).map (·.excl)).sum = su.exclOf k dflt ∧
     (((dumpRows su).filter (fun r => key r.fi == k)).map (·.incl)).sum = su.inclOf k dflt ∧
     (((dumpRows su).filter (fun r => key r.fi == k)).map (·.excl)).sum = su.exclOf k dflt := by
-  obtain ⟨_, hNg, _⟩ := run_spec key false dflt evs _ sg (GInv_init false dflt) (NInv_init key false dflt) hg
-  obtain ⟨_, hNu, _, _, hgu, _⟩ := run_spec key true dflt evs _ su (GInv_init true dflt) (NInv_init key true dflt) hu
-  obtain ⟨p1, p2⟩ := grouped_partition key dflt evs su sg hu hg k
+  obtain ⟨_, hNg, _⟩ := run_spec key hupd false dflt evs _ sg (GInv_init false dflt) (NInv_init key false dflt) hg
+  obtain ⟨_, hNu, _, _, hgu, _⟩ := run_spec key hupd true dflt evs _ su (GInv_init true dflt) (NInv_init key true dflt) hu
+  obtain ⟨p1, p2⟩ := grouped_partition key hupd dflt evs su sg hu hg k
   obtain ⟨d1, d2⟩ := dumpRows_sum key sg hNg k
   obtain ⟨u1, u2⟩ := dumpRows_sum key su hNu k
   refine ⟨by rw [d1, p1], by rw [d2, p2], ?_, ?_⟩
@@ -195,9 +229,9 @@ theorem grouped_tables_partition (key : FeatureInfo → κ) (dflt : String) (evs
     have : su.groupIds = [(dflt, 0)] := run_groupIds_ungrouped key dflt evs su hu
     simp [this]
 
-example : ∃ su sg, countAll coordKey true "NA" exHistory = some su ∧ countAll coordKey false "NA" exHistory = some sg ∧
-    sg.groupIds.map (·.1) = ["A", "B"] ∧ su.inclOf ("chr1", 10, 20, "+") "NA" = 2 ∧
-    sg.inclOf ("chr1", 10, 20, "+") "A" = 1 ∧ sg.inclOf ("chr1", 10, 20, "+") "B" = 1 := by
+example : ∃ su sg, countAll coordKey FeatureInfo.merge true "NA" exHistory = some su ∧ countAll coordKey FeatureInfo.merge false "NA" exHistory = some sg ∧
+    sg.groupIds.map (·.1) = ["A", "B"] ∧ su.inclOf ("chr1", 10, 20) "NA" = 2 ∧
+    sg.inclOf ("chr1", 10, 20) "A" = 1 ∧ sg.inclOf ("chr1", 10, 20) "B" = 1 := by
   refine ⟨_, _, rfl, rfl, by decide, by decide, by decide, by decide⟩
 
 end IsoVerif.Props.C13
